@@ -10,6 +10,7 @@ import (
 	"fmt"
 	"os"
 	"reflect"
+	"sync"
 	"unsafe"
 )
 
@@ -108,6 +109,32 @@ func vrfMapOrder(nondet bool) {}
 // vrfFreeze / vrfThaw: write monitor on every heap object existing at the freeze (symbolic only).
 func vrfFreeze() {}
 func vrfThaw()   {}
+
+// vrfConcurrently: symbolically f runs once; natively two goroutines run it at the same time, so that the race
+// detector (replay binary built with -race) reports any write f makes to shared memory.
+func vrfConcurrently(f func()) {
+	var wg sync.WaitGroup
+	var failed interface{}
+	var mu sync.Mutex
+	for i := 0; i < 2; i++ {
+		wg.Add(1)
+		go func() {
+			defer wg.Done()
+			defer func() {
+				if r := recover(); r != nil {
+					mu.Lock()
+					failed = r
+					mu.Unlock()
+				}
+			}()
+			f()
+		}()
+	}
+	wg.Wait()
+	if failed != nil {
+		panic(failed)
+	}
+}
 
 func vrfPanics(f func()) (p bool) {
 	defer func() {
